@@ -125,6 +125,24 @@ def _jsonable(o, keepinf=False):
     return repr(o)
 
 
+def _shrink(o, depth=0):
+    """samples are meant to be read: a network with thousands of edges is summarised"""
+    if isinstance(o, dict):
+        if isinstance(o.get('edges'), list) and len(o['edges']) > 300:
+            o = dict(o)
+            m = len(o['edges'])
+            o['edges'] = o['edges'][:5] + ['... %d edges in all' % m]
+            for k in ('ew', 'nw'):
+                if isinstance(o.get(k), dict):
+                    o[k] = {a: (list(ws[:5]) + ['...']) for a, ws in o[k].items()}
+            for k in ('prev_edges',):
+                o.pop(k, None)
+        return {k: (_shrink(v, depth + 1) if depth < 4 else v) for k, v in o.items()}
+    if isinstance(o, list) and len(o) > 400:
+        return o[:10] + ['... %d items in all' % len(o)]
+    return o
+
+
 def load_known():
     p = os.path.join(VERIF, 'known_findings.json')
     if not os.path.exists(p):
@@ -173,7 +191,7 @@ def run_check(pid, tier, seed, budget=None):
         if r['nontrivial'] is not None:
             agg['nontrivial'].add(r['nontrivial'] if isinstance(r['nontrivial'], str) else repr(r['nontrivial']))
         if r['sample'] is not None and len(agg['samples']) < 5:
-            agg['samples'].append(r['sample'])
+            agg['samples'].append(_shrink(r['sample']))
         if r['inconclusive']:
             if r['inconclusive'] == 'case_timeout':
                 agg['case_timeouts'] += 1
